@@ -41,6 +41,14 @@ CHECKS = {
    text="Seeded search over client reads (chunk_get, data_get_public, fetch_and_decrypt_vault) against byzantine holders: one query answered with another valid chunk, a foreign chunk, the right bytes under the wrong kind or undecodable bytes; vault reads answered with seeded sets of scratchpads (valid with chosen counters, unsigned, signed by another key, inflated counter, another owner's) from up to 8 peers and any terminal event. Ok must hash to the requested address / equal the original data; a vault Ok must be the owner's validly signed pad with the highest counter delivered, else Err.",
    note="Trusted: as C14.",
    technique="deterministic simulation: byzantine holder replies against the real client read path, authenticity oracle"),
+ "C06": dict(sim="registers", level="exploration", ref="5 C06",
+   text="Seeded search over 2-5 replicas, each a real (SignedRegister, RegisterCrdt) pair, writers with real BLS keys and a pool of operations (authorised, unauthorised signer, forged signature, foreign address, oversized, concurrent, child-before-parent) travelling as op broadcasts and whole-register transfers (verified_merge, verify+merge, verify_with_address) over a simulated transport with reordering, duplication, loss until heal and partitions; adversarial registers arrive only through the verifying entry points. After every delivery each replica's ops are a subset of the independently computed valid set; merge laws are checked on sampled reachable states; after heal and full delivery all replicas hold equal ops and equal reads and every reachable state verifies at every peer; a 'limit' mode drives replicas across the 1024-entry limit.",
+   note="Trusted: operation validity is decided from how the sim built the op, never by asking the code; under anyone-can-write every signer is valid; the transport is the simulator.",
+   technique="deterministic simulation: simulated lossy/partitioned transport between real CRDT replicas, convergence + validity-set oracle"),
+ "C08": dict(sim="fetcher", level="exploration", ref="5 C08",
+   text="Seeded search over advertisement lists from up to 4 holders (single-key and multi-key, overlapping, differing versions), completions, early completions, range and fullness updates and timer expiries against the real ReplicationFetcher in simulated time (deadlines aged through the guarded age hook), checked call by call against a queue/in-flight model: no fetch of a held version, range and farthest limits, no duplicate in-flight entry, parallel-fetch cap, closest-first, exits from the in-flight set, timeout reporting, and bounded liveness once faults stop.",
+   note="Trusted: age(d) on all stored Instant deadlines is observationally the clock advancing by d (deadlines kept >= 2.5 s from now, runs < 1 s real time); distances recomputed independently; where hash order decides between equal candidates the model adopts the observed choice.",
+   technique="deterministic simulation: simulated time and holders against the real fetcher, queue/in-flight model oracle with bounded-liveness rounds"),
 }
 
 NOT_APPLICABLE = {
